@@ -43,7 +43,8 @@ theorem C07_read_consistent_is_code : Gen.C07.readRequiresConsistent = true := b
 
 /-- Whether the code hands out 0 after 2^32−1 (EVALUATED on the linked code by `vh gen`) is what
     the model's `guard` switch says. Today: it wraps. -/
-theorem C07_wrap_is_code : codeProto.guard = !Gen.C07.wrapsAtMax := by decide
+theorem C07_wrap_is_code :
+    Gen.C07.wrapEvaluated = true ∧ codeProto.guard = !Gen.C07.wrapsAtMax := by decide
 
 /-- `local.Service.NewRunNumber` is `GetNextUInt32` for a consul:// backend, and
     `before_event START_ACTIVITY` cancels the transition (dropping the value) when it errs —
